@@ -552,8 +552,15 @@ def _c19_cases(rng, tier):
                     rng.choice([-90.0, 90.0, 0.0, 89.9, rng.uniform(-90, 90)])) for _ in range(3)]
             yield {"kind": "sphere", "pts": pts}
         else:
-            yield {"kind": "kernel", "cx": rng.choice([1.0, 0.5, 2.0, 10.0]), "cy": rng.choice([1.0, 0.5, 3.0, 10.0]),
-                   "outer": rng.choice([1, 2, 3.5, 5, 10, 25]), "inner": rng.choice([0.5, 1, 2, 3])}
+            cx, cy = rng.choice([1.0, 0.5, 2.0, 10.0, 0.1, 0.2, 0.3, 0.7]), rng.choice([1.0, 0.5, 3.0, 10.0, 0.1, 0.2, 0.3])
+            if rng.random() < 0.5:
+                # radius an exact decimal multiple of the (fractional) cell size
+                k = rng.randint(1, 12)
+                outer = round(k * rng.choice([cx, cy]), 10)
+                inner = round(rng.randint(1, k) * rng.choice([cx, cy]) / 2, 10)
+            else:
+                outer, inner = rng.choice([1, 2, 3.5, 5, 10, 25]), rng.choice([0.5, 1, 2, 3])
+            yield {"kind": "kernel", "cx": cx, "cy": cy, "outer": outer, "inner": inner}
 
 
 def _c19_check(case):
